@@ -21,7 +21,10 @@ def mode_expr(spec, d, probe_state):
     for text in spec['exprs']:
         try:
             v = parse_expression(lid, text).get_value(scope, lid)
-            res.append({'v': v if isinstance(v, int) else repr(v)})
+            if isinstance(v, int) and v.bit_length() > 512:
+                res.append({'v': f'<int of {v.bit_length()} bits>'})
+            else:
+                res.append({'v': v if isinstance(v, int) else repr(v)})
         except SystemExit as e:
             res.append({'err': 'SystemExit', 'msg': str(e.code)[:200]})
         except RecursionError as e:
